@@ -6,6 +6,7 @@ from corankco.partitioning.ordered_partition import OrderedPartition
 from corankco.algorithms.parcons.parcons import ParCons
 from corankco.algorithms.bioconsert.bioconsert import BioConsert
 from corankco.algorithms.kwiksort.kwiksortrandom import KwikSortRandom
+from corankco.algorithms.copeland.copeland import CopelandMethod
 from corankco.consensus import ConsensusFeature
 
 import corankco.algorithms.parcons.parcons as parcons_module
@@ -51,6 +52,10 @@ class ParConsSuite(Suite):
         for _ in range(90 if tier == "quick" else 1200):
             cases.append({"s": rng.choice([gen.UNIFYING, gen.UNIFYING, gen.EXTENDED, gen.UNIFYING_HALF, gen.GENERIC]),
                           "D": sparse_component_dataset(rng, 5 if tier == "quick" else 6)})
+        for _ in range(30 if tier == "quick" else 300):     # a member of a component never ranked with the others
+            cases.append({"s": rng.choice([gen.UNIFYING, gen.UNIFYING, gen.UNIFYING_HALF]), "D": isolated_member_dataset(rng)})
+        for _ in range(6 if tier == "quick" else 40):       # two hard components of sizes 4 and 3 (no global brute force: 7 elements)
+            cases.append({"s": rng.choice([gen.UNIFYING, gen.GENERIC, gen.EXTENDED]), "D": two_cycles_dataset(rng)})
         for _ in range(160 if tier == "quick" else 2500):
             nmax = rng.choice([4, 5, 6, 6]) if tier == "quick" else rng.choice([5, 6, 6, 6])
             cases.append({"s": opt_scheme(rng), "D": layered_dataset(rng, nmax, 5) if rng.random() < 0.7 else gen.random_dataset(rng, nmax, 5)})
@@ -62,7 +67,7 @@ class ParConsSuite(Suite):
         ds, sc = mk(case["D"], case["s"])
         out = {"D": gen.observe(ds), "U": gen.id_order(ds), "P": groups(OrderedPartition.parcons_partition(ds, sc)), "runs": []}
         n = len(out["U"])
-        for bound, aux in ((80, None), (0, None), (1, KwikSortRandom()), (2, BioConsert())):
+        for bound, aux in ((80, None), (0, None), (1, KwikSortRandom()), (2, BioConsert()), (3, CopelandMethod())):
             log = []
             alg = ParCons(auxiliary_algorithm=Recorder(aux if aux is not None else BioConsert(), True, log), bound_for_exact=bound)
             orig = parcons_module._exact_algorithm_for_sub_problems
